@@ -105,6 +105,11 @@ package flags
 // rule has exactly one of -a / -A, which decides its type.
 //@ func (*rule/flags.ruleFlagSet).validate
 //@ modifies r.Type
+//@ callback invariant deleteAll <= 1 && fileWatch <= 1 && syscall <= 1
+//@ witness[C14] isNil(result0) ==> deleteAll + fileWatch + syscall == 1
+//@ witness[C14] isNil(result0) && deleteAll == 1 ==> r.Type == rule.DeleteAllRuleType
+//@ witness[C14] isNil(result0) && fileWatch == 1 ==> r.Type == rule.FileWatchRuleType
+//@ witness[C14] isNil(result0) && syscall == 1 ==> r.Type == rule.AppendSyscallRuleType || r.Type == rule.PrependSyscallRuleType
 //@ ensures[C14] isNil(result0) ==> (r.Type == rule.DeleteAllRuleType || r.Type == rule.FileWatchRuleType || r.Type == rule.AppendSyscallRuleType || r.Type == rule.PrependSyscallRuleType)
 //@ ensures[C14] isNil(result0) && r.Type == rule.AppendSyscallRuleType ==> (r.Append.List != "" || r.Append.Action != "") && r.Prepend.List == "" && r.Prepend.Action == ""
 //@ ensures[C14] isNil(result0) && r.Type == rule.PrependSyscallRuleType ==> (r.Prepend.List != "" || r.Prepend.Action != "") && r.Append.List == "" && r.Append.Action == ""
@@ -117,11 +122,11 @@ package flags
 //
 // The returned rule carries exactly what the flag set collected (ruleFlagSet
 // is Parse's local; these clauses are checked at Parse's own returns).
-//@ ensures[C14] isNil(result1) ==> (ruleFlagSet.Type == rule.DeleteAllRuleType && typeIs(result0, *rule.DeleteAllRule)) || (ruleFlagSet.Type == rule.FileWatchRuleType && typeIs(result0, *rule.FileWatchRule)) || ((ruleFlagSet.Type == rule.AppendSyscallRuleType || ruleFlagSet.Type == rule.PrependSyscallRuleType) && typeIs(result0, *rule.SyscallRule))
-//@ ensures[C14] isNil(result1) && typeIs(result0, *rule.DeleteAllRule) ==> ptr(rule.DeleteAllRule, payload(result0)).Type == rule.DeleteAllRuleType && ptr(rule.DeleteAllRule, payload(result0)).Keys == ruleFlagSet.Key
-//@ ensures[C14] isNil(result1) && typeIs(result0, *rule.FileWatchRule) ==> ptr(rule.FileWatchRule, payload(result0)).Type == rule.FileWatchRuleType && ptr(rule.FileWatchRule, payload(result0)).Path == ruleFlagSet.Path
-//@ ensures[C14] isNil(result1) && typeIs(result0, *rule.FileWatchRule) ==> ptr(rule.FileWatchRule, payload(result0)).Permissions == ruleFlagSet.Permissions && ptr(rule.FileWatchRule, payload(result0)).Keys == ruleFlagSet.Key
-//@ ensures[C14] isNil(result1) && typeIs(result0, *rule.SyscallRule) ==> ptr(rule.SyscallRule, payload(result0)).Type == ruleFlagSet.Type && ptr(rule.SyscallRule, payload(result0)).Filters == ruleFlagSet.Filters
-//@ ensures[C14] isNil(result1) && typeIs(result0, *rule.SyscallRule) ==> ptr(rule.SyscallRule, payload(result0)).Syscalls == ruleFlagSet.Syscalls && ptr(rule.SyscallRule, payload(result0)).Keys == ruleFlagSet.Key
-//@ ensures[C14] isNil(result1) && typeIs(result0, *rule.SyscallRule) && ruleFlagSet.Type == rule.AppendSyscallRuleType ==> ptr(rule.SyscallRule, payload(result0)).List == ruleFlagSet.Append.List && ptr(rule.SyscallRule, payload(result0)).Action == ruleFlagSet.Append.Action
-//@ ensures[C14] isNil(result1) && typeIs(result0, *rule.SyscallRule) && ruleFlagSet.Type == rule.PrependSyscallRuleType ==> ptr(rule.SyscallRule, payload(result0)).List == ruleFlagSet.Prepend.List && ptr(rule.SyscallRule, payload(result0)).Action == ruleFlagSet.Prepend.Action
+//@ witness[C14] isNil(result1) ==> (ruleFlagSet.Type == rule.DeleteAllRuleType && typeIs(result0, *rule.DeleteAllRule)) || (ruleFlagSet.Type == rule.FileWatchRuleType && typeIs(result0, *rule.FileWatchRule)) || ((ruleFlagSet.Type == rule.AppendSyscallRuleType || ruleFlagSet.Type == rule.PrependSyscallRuleType) && typeIs(result0, *rule.SyscallRule))
+//@ witness[C14] isNil(result1) && typeIs(result0, *rule.DeleteAllRule) ==> ptr(rule.DeleteAllRule, payload(result0)).Type == rule.DeleteAllRuleType && ptr(rule.DeleteAllRule, payload(result0)).Keys == ruleFlagSet.Key
+//@ witness[C14] isNil(result1) && typeIs(result0, *rule.FileWatchRule) ==> ptr(rule.FileWatchRule, payload(result0)).Type == rule.FileWatchRuleType && ptr(rule.FileWatchRule, payload(result0)).Path == ruleFlagSet.Path
+//@ witness[C14] isNil(result1) && typeIs(result0, *rule.FileWatchRule) ==> ptr(rule.FileWatchRule, payload(result0)).Permissions == ruleFlagSet.Permissions && ptr(rule.FileWatchRule, payload(result0)).Keys == ruleFlagSet.Key
+//@ witness[C14] isNil(result1) && typeIs(result0, *rule.SyscallRule) ==> ptr(rule.SyscallRule, payload(result0)).Type == ruleFlagSet.Type && ptr(rule.SyscallRule, payload(result0)).Filters == ruleFlagSet.Filters
+//@ witness[C14] isNil(result1) && typeIs(result0, *rule.SyscallRule) ==> ptr(rule.SyscallRule, payload(result0)).Syscalls == ruleFlagSet.Syscalls && ptr(rule.SyscallRule, payload(result0)).Keys == ruleFlagSet.Key
+//@ witness[C14] isNil(result1) && typeIs(result0, *rule.SyscallRule) && ruleFlagSet.Type == rule.AppendSyscallRuleType ==> ptr(rule.SyscallRule, payload(result0)).List == ruleFlagSet.Append.List && ptr(rule.SyscallRule, payload(result0)).Action == ruleFlagSet.Append.Action
+//@ witness[C14] isNil(result1) && typeIs(result0, *rule.SyscallRule) && ruleFlagSet.Type == rule.PrependSyscallRuleType ==> ptr(rule.SyscallRule, payload(result0)).List == ruleFlagSet.Prepend.List && ptr(rule.SyscallRule, payload(result0)).Action == ruleFlagSet.Prepend.Action
